@@ -607,11 +607,48 @@ def _structs(tier, seed):
     return out
 
 
+def h_wraps_offset(eng, declared, given):
+    """a parameter declared in one temperature scale and called with a quantity of another: the
+    function receives the value on the declared scale (the affine map, not a bare factor); the
+    same on a second call of the same wrapped function with another scale"""
+    ureg = regs.default(eng)
+    inf = covers.infos()
+    x, y = eng.real("x"), eng.real("y")
+    seen = []
+
+    def f(t):
+        seen.append(t)
+        return t
+
+    wrapped = ureg.wraps(declared, (declared,))(f)
+
+    def want(v, src):
+        a, b = inf[src], inf[declared]
+        return (a.num * v + a.off - b.off) / b.num
+
+    others = [u for u in ("kelvin", "degree_Celsius", "degree_Fahrenheit", "degree_Rankine") if u not in (declared, given)]
+    for v, src in ((x, given), (y, others[0]), (x, declared), (y, given)):
+        del seen[:]
+        r = wrapped(ureg.Quantity(v, src))
+        eng.prove(len(seen) == 1 and not hasattr(seen[0], "units"), f"offset:{src}:bare-magnitude-handed-over")
+        eng.prove(Eq(seen[0], want(v, src)), f"offset:{src}:value-on-the-declared-scale")
+        eng.prove(str(r.units) == declared, f"offset:{src}:result-units")
+        eng.prove(Eq(r.magnitude, want(v, src)), f"offset:{src}:result-value")
+    try:
+        wrapped(ureg.Quantity(x, "meter"))
+    except DimensionalityError:
+        eng.prove(True, "offset:incompatible-raises")
+    else:
+        eng.fail("offset:incompatible-accepted")
+
+
 def cases(tier, seed):
     st = _structs(tier, seed)
     out = []
     for i in range(0, len(st), 25):
         out.append(Case("H17.wraps", f"{i:05d}", M, "h_wraps", {"structs": st[i : i + 25]}, validate=1, weight=3.0))
+    for declared, given in (("kelvin", "degree_Celsius"), ("degree_Celsius", "kelvin"), ("kelvin", "degree_Fahrenheit"), ("degree_Fahrenheit", "degree_Celsius"), ("degree_Rankine", "degree_Celsius")):
+        out.append(Case("H17.wraps", f"offset:{declared}<-{given}", M, "h_wraps_offset", {"declared": declared, "given": given}, validate=1))
     for n_params in (1, 2, 3):
         for n_specs in (1, 2, 3, 4):
             for which in ("wraps", "check"):
